@@ -146,7 +146,7 @@ def splitMatrixSvd (dsvd : Mat α → Mat α × List ρ × Mat α) (dnorm : List
   pyAssert (q1.length == A.n)
   pyAssert (QN.isSparseMat A q0 q1)
   let qis := intersect1d q0 q1
-  if qis.isEmpty then
+  if qis.isEmpty || (A.all fun x => decide (x = 0)) then
     pyAssert (A.all fun x => decide (x = 0))
     let u : Mat α := ⟨A.m, 1, fun i _ => if i = 0 then 1 else 0⟩
     let v : Mat α := Mat.zero 1 A.n
